@@ -55,6 +55,8 @@ func checkC19(c *core.Ctx) {
 	ruleAloneInBucket(c)
 	ruleSQLFunctionsScoped(c)
 	ruleTriggerWhen(c)
+	// uniqueness is per ledger: every unique constraint on a shared table includes the ledger column
+	ruleUniqueScope(c, "CAT/unique-scope")
 }
 
 // ledgerBoundArg resolves the Go value bound to a placeholder, looking through a spread
